@@ -38,8 +38,31 @@ def _is_gap(st: ast.stmt) -> bool:
     return isinstance(st, ast.Expr) and isinstance(st.value, ast.Name) and st.value.id == '___'
 
 
+def _temp_value(n: ast.AST):
+    """the defining expression of a Name that is a single-definition temporary of its function, or None"""
+    if not isinstance(n, ast.Name) or not isinstance(n.ctx, ast.Load):
+        return None
+    fn = getattr(n, '_verif_func', None)
+    if fn is None:
+        return None
+    from .normal import single_definitions
+
+    d = single_definitions(fn).get(n.id)
+    if d is None or getattr(d, '_verif_seq', 0) >= getattr(n, '_verif_seq', 0):
+        return None
+    return d.value
+
+
 def m_node(p, n, b: dict) -> bool:
     """match pattern node p against node n under bindings b (mutated on success)"""
+    if isinstance(p, ast.Name) and NAME_MV.match(p.id) and p.id in b.get('__virtual__', {}) and not (isinstance(n, ast.Name) and p.id in b):
+        # a temporary of the pattern that the code does not have: its defining expression must stand where it is used
+        return m_node(b['__virtual__'][p.id], n, b)
+    if isinstance(n, ast.Name) and isinstance(p, ast.AST) and not isinstance(p, ast.Name):
+        # a temporary of the code that the pattern does not have: look through it
+        v = _temp_value(n)
+        if v is not None:
+            return m_node(p, v, b)
     if isinstance(p, ast.Name):
         if EXPR_MV.match(p.id):
             if not isinstance(n, ast.expr):
@@ -151,6 +174,29 @@ def _independent(a: ast.stmt, b: ast.stmt) -> bool:
     return ta != tb and ta not in rb and tb not in ra
 
 
+def _instantiate(pexpr: ast.AST, b: dict) -> ast.AST:
+    import copy
+
+    e = copy.deepcopy(pexpr)
+    for n in ast.walk(e):
+        if isinstance(n, ast.Name):
+            v = b.get(n.id)
+            if isinstance(v, str):
+                n.id = v
+            elif isinstance(v, tuple):
+                n.id = '(' + unparse(v[1]) + ')'
+    return e
+
+
+def _is_temp_def(st: ast.Assign) -> bool:
+    fn = getattr(st, '_verif_func', None)
+    if fn is None:
+        return False
+    from .normal import single_definitions
+
+    return single_definitions(fn).get(st.targets[0].id) is st
+
+
 def _runs(ns: list[ast.stmt]) -> list[int]:
     """run id per statement: maximal groups of consecutive, mutually independent plain assignments share an id"""
     ids = []
@@ -181,7 +227,12 @@ def m_stmts(ps: list[ast.stmt], ns: list[ast.stmt], b: dict, anchored: bool = Fa
             return m_node(p.targets[0], n.target, b2) and m_node(p.value, n.value, b2)
         return m_node(p, n, b2)
 
-    def rec(i, j, used, bb):
+    budget = [4000]
+
+    def rec(i, j, used, bb, slack=3):
+        budget[0] -= 1
+        if budget[0] < 0:
+            return None
         while j in used:
             j += 1
         if i == len(ps):
@@ -189,11 +240,11 @@ def m_stmts(ps: list[ast.stmt], ns: list[ast.stmt], b: dict, anchored: bool = Fa
                 return None
             return bb
         if _is_gap(ps[i]):
-            r = rec(i + 1, j, used, dict(bb))
+            r = rec(i + 1, j, used, dict(bb), slack)
             if r is not None:
                 return r
             if j < len(ns):
-                return rec(i, j + 1, used, bb)
+                return rec(i, j + 1, used, bb, slack)
             return None
         if j >= len(ns):
             return None
@@ -201,14 +252,37 @@ def m_stmts(ps: list[ast.stmt], ns: list[ast.stmt], b: dict, anchored: bool = Fa
         for k in cands:
             b2 = dict(bb)
             if match_one(ps[i], ns[k], b2):
-                r = rec(i + 1, j + 1, used, b2) if k == j else rec(i + 1, j, used | {k}, b2)
+                r = rec(i + 1, j + 1, used, b2, slack) if k == j else rec(i + 1, j, used | {k}, b2, slack)
                 if r is not None:
                     return r
+        if slack <= 0:
+            return None
+        # the code defines a temporary here that the pattern does not mention: it is looked through where it is used
+        st = ns[j]
+        if isinstance(st, ast.Assign) and len(st.targets) == 1 and isinstance(st.targets[0], ast.Name) and _is_temp_def(st):
+            r = rec(i, j + 1, used, dict(bb), slack - 1)
+            if r is not None:
+                return r
+        # the pattern defines a temporary here that the code does not have: remember its expression
+        pst = ps[i]
+        if isinstance(pst, ast.Assign) and len(pst.targets) == 1 and isinstance(pst.targets[0], ast.Name) and NAME_MV.match(pst.targets[0].id) and pst.targets[0].id not in bb \
+                and any(isinstance(x, ast.Name) and x.id == pst.targets[0].id and isinstance(x.ctx, ast.Load) for later in ps[i + 1:] for x in ast.walk(later)):
+            b2 = dict(bb)
+            virt = dict(b2.get('__virtual__', {}))
+            virt[pst.targets[0].id] = pst.value
+            b2['__virtual__'] = virt
+            r = rec(i + 1, j, used, b2, slack - 1)
+            if r is not None:
+                return r
         return None
 
     r = rec(0, 0, frozenset(), dict(b))
     if r is None:
         return False
+    # a temporary that only the pattern has stands for its expression (with the names bound by the match)
+    for name, pexpr in r.get('__virtual__', {}).items():
+        if name not in r:
+            r[name] = unparse(_instantiate(pexpr, r))
     b.clear()
     b.update(r)
     return True
